@@ -1,7 +1,7 @@
 #!/bin/bash
 # tools/runall_par.sh <tier> <jobs> "<seeds>" [props...]  -- run checks (one property per worker, seeds sequential), summarise
 tier=$1; jobs=$2; seeds=$3; shift 3
-cd /verif
+cd "$(dirname "$0")/.."
 props=${@:-$(python3 -c "import json;print(' '.join(json.load(open('tools/claimed.json'))))")}
 one() { p=$1; for s in $SEEDS; do
     start=$(date +%s)
